@@ -182,7 +182,11 @@ def future_mix(pools=(0, 1, 2)):
     for p in pools:
         out.append(make('FDaw_Fire_p%d' % p, 1, p, 1, [FD(1, aw=[1], then='await')], [FIRE(1)]))
         out.append(make('FD_S_Fire_p%d' % p, 1, p, 1, [FD(1, aw=[1], then='detach'), S(1)], [FIRE(1)]))
+        # after(): the operation waits for an external future inside its slot of the queue
+        out.append(make('AFaw_Fire_p%d' % p, 1, p, 1, [AF(1, 1, then='await')], [FIRE(1)]))
+        out.append(make('AFdet_D_S_Fire_p%d' % p, 1, p, 1, [AF(1, 1, then='detach'), D(1), S(1)], [FIRE(1)]))
     for p in (1, 2):
+        out.append(make('AFkeep_D_AW_Fire_p%d' % p, 1, p, 1, [AF(1, 1, label='f'), D(1), AW('f')], [FIRE(1)]))
         out.append(make('FDaw_Fire_D_p%d' % p, 1, p, 1, [FD(1, aw=[1], then='await')], [FIRE(1), D(1)]))
         out.append(make('FDkeep_D_AW_Fire_p%d' % p, 1, p, 1, [FD(1, aw=[1], label='f'), D(1), AW('f')], [FIRE(1)]))
         out.append(make('FDdet_D_Fire_T_p%d' % p, 1, p, 1, [FD(1, aw=[1], then='detach'), D(1)], [FIRE(1), T(1)]))
@@ -424,7 +428,8 @@ def for_property(prop, tier, seed=0):
         if not quick:
             fam += three_thread((0, 1, 2))
     elif prop == 'C07':
-        fam = future_mix((1,) if quick else (1, 2)) + [make('FDaw_Fire_p0', 1, 0, 1, [FD(1, aw=[1], then='await'), FIRE(1)][:1], [FIRE(1)])]
+        fam = future_mix((1,) if quick else (1, 2)) + [make('FDaw_Fire_p0', 1, 0, 1, [FD(1, aw=[1], then='await'), FIRE(1)][:1], [FIRE(1)]),
+                                                               make('AFaw_Fire_p0', 1, 0, 1, [AF(1, 1, then='await')], [FIRE(1)])]
     elif prop == 'C09':
         fam = [s for s in core_mix((0, 1) if quick else (0, 1, 2)) + future_mix((1,) if quick else (1, 2)) + spurious_families((0, 1) if quick else (0, 1, 2))
                if any(op['k'] == 'try_sync' for op in scenlib.flatten(s).values())]
